@@ -299,6 +299,13 @@ class Matcher:
             lb = deref(self.gn, b.d.get("Length"))
             if lb != len(b.data):
                 raise Diff("%s: /Length %r of the copy differs from its %d data bytes" % (path, lb, len(b.data)))
+            # /DecodeParms entry by entry: an entry that states the default of Table 8 says the same as its absence
+            pa, pb = norm_parms(self.gs, a), norm_parms(self.gn, b)
+            if pa is not None and pb is not None:
+                da.pop("DecodeParms", None)
+                db.pop("DecodeParms", None)
+                for i in range(max(len(pa), len(pb))):
+                    self.eq(pa[i] if i < len(pa) else {}, pb[i] if i < len(pb) else {}, path + "{stream}/DecodeParms[%d]" % i)
             self.eq(da, db, path + "{stream}", top_ignore)
             why = stream_data_problem(self.gs, a, self.gn, b)
             if why:
@@ -319,6 +326,19 @@ class Matcher:
         if isinstance(a, (list, tuple)):
             if len(a) != len(b):
                 raise Diff("%s: array length %d != %d" % (path, len(a), len(b)))
+            if len(a) == 4 and deref(self.gs, a[0]) == Name("Indexed") and not self.strict:
+                # [/Indexed base hival lookup]: the palette may be held as a string or as a stream (§8.6.6.3) — the same
+                # bytes are the same palette; a stream is an indirect object (§7.3.8), never a direct element of the array
+                if isinstance(b[3], Stream):
+                    raise Diff("%s[3]: the palette of the copy is a stream written directly inside the colour-space array "
+                               "(a stream shall be an indirect object)" % path)
+                la, lb = indexed_lookup(self.gs, a[3]), indexed_lookup(self.gn, b[3])
+                if la is not None and lb is not None:
+                    for i in range(3):
+                        self.eq(a[i], b[i], path + "[%d]" % i)
+                    if la != lb:
+                        raise Diff("%s[3]: the palettes differ (%d / %d bytes)" % (path, len(la), len(lb)))
+                    return
             for i, (x, y) in enumerate(zip(a, b)):
                 self.eq(x, y, path + "[%d]" % i)
             return
@@ -372,6 +392,47 @@ def default_parms(g, k, v):
         if not isinstance(d, dict) or any(PARM_DEFAULTS.get(kk, object()) != deref(g, x) for kk, x in d.items()):
             return False
     return True
+
+
+FLATE_LZW = (b"FlateDecode", b"Fl", b"LZWDecode", b"LZW")
+
+
+def norm_parms(g, st):
+    """the parameters of each filter of a stream without the entries that are null or (FlateDecode / LZWDecode, Table 8) state
+    the default value; [] when no filter has any left.  None if /Filter and /DecodeParms are not of the regular shape (a name
+    with a dictionary, or an array with an array of dictionaries / nulls not longer than it): then they are compared as they are"""
+    f = deref(g, st.d.get("Filter"))
+    p = deref(g, st.d.get("DecodeParms"))
+    if f is None or p is None:
+        return [] if p is None else None
+    if not isinstance(f, (Name, list)) or not isinstance(p, (dict, list)):
+        return None
+    names = [deref(g, x) for x in f] if isinstance(f, list) else [f]
+    parms = [deref(g, x) for x in p] if isinstance(p, list) else [p]
+    if len(parms) > len(names) or not all(isinstance(n, Name) for n in names) or not all(d is None or isinstance(d, dict) for d in parms):
+        return None
+    out = []
+    for i, n in enumerate(names):
+        d = {k: v for k, v in ((parms[i] if i < len(parms) else None) or {}).items() if deref(g, v) is not None}
+        if n.s in FLATE_LZW:
+            d = {k: v for k, v in d.items()
+                 if not (k in PARM_DEFAULTS and is_num(deref(g, v)) and deref(g, v) == PARM_DEFAULTS[k])}
+        out.append(d)
+    return out if any(out) else []
+
+
+def indexed_lookup(g, v):
+    """the palette of an Indexed colour space (§8.6.6.3: a stream or a byte string) as bytes; None if it is neither a string
+    nor a reference to a stream the oracle can decode"""
+    if isinstance(v, (bytes, bytearray)):
+        return bytes(v)
+    if isinstance(v, Ref):
+        t = deref(g, v)
+        if isinstance(t, (bytes, bytearray)):
+            return bytes(t)
+        if isinstance(t, Stream):
+            return decode_stream(g, t)
+    return None
 
 
 # entries whose absence means exactly this value (Table 89 image dictionaries, Table 95 form dictionaries)
